@@ -7,9 +7,9 @@
     groups, ACLs, address groups and the config-level functions is decided per generated object
     by evaluating parse (render (parse t)) in the model and in the implementation (strict for
     native text, from the first re-parse on for foreign spellings) - partial in that sense. *)
-From V Require Import base.Prelude base.Strs gen.Tables model.Cfg model.Names model.Ports model.Addr
+From V Require Import base.Prelude base.Strs gen.Tables model.Cfg model.Names model.Wildcard model.Ports model.Addr model.Ace
   model.Lex model.AddrText model.AceText model.AclText
-  proofs.NamesProofs proofs.PortsProofs proofs.TextProofs.
+  proofs.NamesProofs proofs.PortsProofs proofs.TextProofs proofs.SplitterProofs proofs.AceFixProofs.
 Local Open Scope N_scope.
 
 Theorem C06_port_partial : forall pr pl v15 nr o xs p,
@@ -39,6 +39,53 @@ Theorem C06_address_partial : forall pl x m len, (x < 2 ^ 32)%N -> (m < 2 ^ 32)%
 Proof.
   intros pl x m len Hx Hm Hl. split; [apply any_text_fixpoint|]. split; [now apply host_text_fixpoint|].
   split; [now apply prefix_text_fixpoint|now apply wild_text_fixpoint].
+Qed.
+
+
+(** ** a whole extended ACE
+    If every field of an extended ACE is a fixed point of its own reader and is written in
+    well-formed tokens ([fields_fixed]: the addresses as in C06_address_partial, the ports as in
+    C06_port_partial, the protocol as in C06_protocol_partial, option tokens that are no address
+    starts), the rendered line is split back into exactly these fields ([C01_splitter]) and the
+    ACE is read back unchanged.  N1 (an IOS address that renders the all-ones wildcard) and N14
+    (address-like option text) do not satisfy the hypotheses - that is where they fail.
+    [C06_ace_nonvacuous]: a parsed ACE with ports on both sides and an option satisfies them. *)
+Theorem C06_ace : forall c t SRC DST,
+  t_type_ext t = true -> fields_fixed c t SRC DST -> parse_ace_text c (render_ace c t) = Ok t.
+Proof. exact ace_fixpoint. Qed.
+
+Local Open Scope string_scope.
+Definition c06_cx := mkCfg Ios false false false 16%nat.
+Definition c06_tx_opt : option tace := Eval vm_compute in
+  match parse_ace_text c06_cx "10 permit tcp host 10.0.0.1 eq www 10.0.0.0 0.0.0.255 eq 443 log" with Ok t => Some t | _ => None end.
+Definition c06_tx : tace := Eval vm_compute in match c06_tx_opt with Some t => t | None => mkTace true 0 (mkAce true 0 (AGroup "" []) (AGroup "" []) empty_port empty_port [] []) [] end.
+Ltac tok := split; [vm_compute; reflexivity|vm_compute; discriminate].
+Ltac toks := repeat (first [apply Forall_nil | apply Forall_cons; [tok|]]).
+Ltac afs := repeat (first [apply Forall_nil | apply Forall_cons; [vm_compute; reflexivity|]]).
+Example C06_ace_nonvacuous : parse_ace_text c06_cx (render_ace c06_cx c06_tx) = Ok c06_tx.
+Proof.
+  apply (ace_text_fixpoint c06_cx c06_tx eq_refl ["host"; render_ip 167772161] [render_ip 167772160; render_ip 255]).
+  - assert (E : render_addr (plat c06_cx) (a_src (t_ace c06_tx)) = "host " ++ render_ip 167772161) by (vm_compute; reflexivity).
+    rewrite E. split; [vm_compute; reflexivity|]. split; [apply AT_host|]. intros kw name E0 [-> | ->]; discriminate.
+  - assert (E : render_addr (plat c06_cx) (a_dst (t_ace c06_tx)) = render_ip 167772160 ++ " " ++ render_ip 255) by (vm_compute; reflexivity).
+    rewrite E. split; [vm_compute; reflexivity|]. apply AT_wild.
+  - vm_compute. reflexivity.
+  - vm_compute. reflexivity.
+  - tok.
+  - vm_compute. reflexivity.
+  - vm_compute. reflexivity.
+  - split; [|split; [|vm_compute; reflexivity]].
+    + assert (E : render_port (port_nr c06_cx) (proto_ctx (plat c06_cx) (is15 c06_cx) (a_proto (t_ace c06_tx))) (a_sport (t_ace c06_tx)) = ["eq"; "www"]) by (vm_compute; reflexivity).
+      rewrite E. toks.
+    + assert (E : render_port (port_nr c06_cx) (proto_ctx (plat c06_cx) (is15 c06_cx) (a_proto (t_ace c06_tx))) (a_sport (t_ace c06_tx)) = ["eq"; "www"]) by (vm_compute; reflexivity).
+      rewrite E. afs.
+  - split; [|split; [|vm_compute; reflexivity]].
+    + assert (E : render_port (port_nr c06_cx) (proto_ctx (plat c06_cx) (is15 c06_cx) (a_proto (t_ace c06_tx))) (a_dport (t_ace c06_tx)) = ["eq"; "443"]) by (vm_compute; reflexivity).
+      rewrite E. toks.
+    + assert (E : render_port (port_nr c06_cx) (proto_ctx (plat c06_cx) (is15 c06_cx) (a_proto (t_ace c06_tx))) (a_dport (t_ace c06_tx)) = ["eq"; "443"]) by (vm_compute; reflexivity).
+      rewrite E. afs.
+  - assert (E : t_option_line c06_tx = ["log"]) by (vm_compute; reflexivity). rewrite E.
+    split; [toks|]. split; [afs|]. split; vm_compute; reflexivity.
 Qed.
 
 (** a two-step example with a foreign spelling (prefix notation on IOS) *)
